@@ -105,7 +105,8 @@ def generate(tier):
     cases = []
     nets = ["chain", "branch"]
     par_grid = [(1.0, 1.0, 1.0), (2.0, 0.5, 1.0), (0.5, 2.0, 2.0)] if tier == "quick" else list(it.product(GRID, repeat=3))
-    for net, n1, n2 in it.product(nets, ORDERS, ORDERS):
+    # elasticities need no steady state: negative kinetic orders (inhibition) are parameters with a negative VALUE
+    for net, n1, n2 in it.product(nets, [*ORDERS, -0.8], [*ORDERS, -1.5]):
         for state in it.product(GRID, repeat=2):
             for pars in par_grid[:2] if tier == "quick" else par_grid[::4]:
                 for norm in (True, False):
@@ -332,15 +333,15 @@ def check(case):
                         if not _close(g, e, 1e-6):
                             return outcome(False, "wrong-elasticity", symptom="wrong-variable-elasticity", detail=f"d{r}/d{v}: {g} expected {e} | {txt}")
             else:
-                to_scan = ["c", "k1", "k2"] + (["kb"] if case["net"] == "branch" else [])
+                to_scan = ["c", "k1", "k2", "n1", "n2"] + (["kb"] if case["net"] == "branch" else [])
                 if not norm:
                     to_scan = to_scan[::-1]
                 got = mca.parameter_elasticities(m, to_scan=to_scan, normalized=norm, **kw_state)
-                pv = {"c": c, "k1": k1, "k2": k2, "kb": kb}
-                exp = {"v0": {"c": 1.0}, "v1": {"k1": x**n1}, "v2": {"k2": y**n2}}
+                pv = {"c": c, "k1": k1, "k2": k2, "kb": kb, "n1": n1, "n2": n2}
+                exp = {"v0": {"c": 1.0}, "v1": {"k1": x**n1, "n1": rates["v1"] * math.log(x)}, "v2": {"k2": y**n2, "n2": rates["v2"] * math.log(y)}}
                 if case["net"] == "branch":
-                    exp["v1b"] = {"kb": x**n1}
-                    exp["v3"] = {"k2": st["z"] ** n2}
+                    exp["v1b"] = {"kb": x**n1, "n1": rates["v1b"] * math.log(x)}
+                    exp["v3"] = {"k2": st["z"] ** n2, "n2": rates["v3"] * math.log(st["z"])}
                 for r in rates:
                     for p in to_scan:
                         e = exp.get(r, {}).get(p, 0.0)
